@@ -115,6 +115,23 @@ func (s *server) close() {
 type session struct {
 	x   *executor
 	srv *server
+	// history: every scenario (as sent) that the current serving process has
+	// executed, oldest first. Cleared when the process is replaced. It is the
+	// "prelude" needed to replay a result that depends on what the process
+	// compiled before.
+	history [][]byte
+}
+
+// maxServed bounds the length of a serving process's history.
+const maxServed = 250
+
+// prelude returns the scenarios executed by the current serving process
+// before the most recent one.
+func (ss *session) prelude() [][]byte {
+	if ss == nil || len(ss.history) < 2 {
+		return nil
+	}
+	return append([][]byte(nil), ss.history[:len(ss.history)-1]...)
 }
 
 func (ss *session) close() { ss.srv.close(); ss.srv = nil }
@@ -122,16 +139,21 @@ func (ss *session) close() { ss.srv.close(); ss.srv = nil }
 // run executes a scenario on the session's serving worker.
 func (ss *session) run(sc *proto.Scenario) (res *proto.Result, crashed bool, crashText string, err error) {
 	x := ss.x
+	if ss.srv != nil && ss.srv.cmd != nil && ss.srv.served >= maxServed {
+		ss.srv.close()
+	}
 	if ss.srv == nil || ss.srv.cmd == nil {
 		if ss.srv, err = x.newServer(); err != nil {
 			return nil, false, "", err
 		}
+		ss.history = nil
 	}
 	s := ss.srv
 	in, err := json.Marshal(sc)
 	if err != nil {
 		return nil, false, "", toolErrf("marshal scenario: %v", err)
 	}
+	ss.history = append(ss.history, in)
 	x.runs.Add(1)
 	s.served++
 	type reply struct {
@@ -226,6 +248,57 @@ func (x *executor) runFresh(sc *proto.Scenario) (res *proto.Result, crashed bool
 	}
 	if res.Fatal != "" {
 		return nil, false, "", toolErrf("worker reported: %s", res.Fatal)
+	}
+	return res, false, "", nil
+}
+
+// runSessionFresh executes prelude scenarios and then sc, in this order, in one
+// fresh OS process, and returns the result of sc.
+func (x *executor) runSessionFresh(prelude [][]byte, sc *proto.Scenario) (res *proto.Result, crashed bool, crashText string, err error) {
+	if len(prelude) == 0 {
+		return x.runFresh(sc)
+	}
+	last, err := json.Marshal(sc)
+	if err != nil {
+		return nil, false, "", toolErrf("marshal scenario: %v", err)
+	}
+	var in bytes.Buffer
+	in.WriteByte('[')
+	for _, p := range prelude {
+		in.Write(p)
+		in.WriteByte(',')
+	}
+	in.Write(last)
+	in.WriteByte(']')
+	ctx, cancel := context.WithTimeout(context.Background(), 4*x.timeout)
+	defer cancel()
+	cmd := exec.CommandContext(ctx, x.worker, "run", "-", strconv.Itoa(x.nSites))
+	cmd.Env = append(cmd.Environ(), "GOMAXPROCS=2")
+	cmd.Stdin = &in
+	var stdout, stderr bytes.Buffer
+	cmd.Stdout = &stdout
+	cmd.Stderr = &stderr
+	x.runs.Add(int64(len(prelude) + 1))
+	x.procs.Add(1)
+	x.fresh.Add(1)
+	runErr := cmd.Run()
+	if ctx.Err() != nil {
+		return nil, false, "", toolErrf("worker watchdog expired for a session of %d scenarios", len(prelude)+1)
+	}
+	if runErr != nil {
+		se := stderr.String()
+		if strings.Contains(se, "fatal error:") || strings.Contains(se, "panic:") {
+			return nil, true, truncate(se, 3000), nil
+		}
+		return nil, false, "", toolErrf("worker exited with %v: %s", runErr, firstLines(se, 5))
+	}
+	lines := bytes.Split(bytes.TrimSpace(stdout.Bytes()), []byte{'\n'})
+	if len(lines) != len(prelude)+1 {
+		return nil, false, "", toolErrf("session of %d scenarios produced %d results", len(prelude)+1, len(lines))
+	}
+	res = &proto.Result{}
+	if err := json.Unmarshal(lines[len(lines)-1], res); err != nil {
+		return nil, false, "", toolErrf("unparsable worker output: %v", err)
 	}
 	return res, false, "", nil
 }
